@@ -1,0 +1,52 @@
+/*
+ * Verification hooks. This header is only ever included when the code is
+ * compiled with -DPISTACHE_VERIF_HOOKS (it is not part of a normal build):
+ * it lets a test harness own the thread schedule at a few named points and
+ * interpose on the socket calls of the transport.
+ *
+ * Nothing is installed by default: every hook is then a load of a null
+ * pointer and a not-taken branch.
+ */
+
+#pragma once
+
+#include <atomic>
+#include <cstddef>
+#include <mutex>
+
+#include <sys/types.h>
+
+namespace Pistache
+{
+    namespace VerifHooks
+    {
+        using YieldFn      = void (*)(const char* tag);
+        using BeforeLockFn = void (*)(std::mutex& mtx, const char* tag);
+        using SendFn       = ssize_t (*)(int fd, const void* buf, size_t len, int flags);
+        using SendfileFn   = ssize_t (*)(int out_fd, int in_fd, off_t* offset, size_t count);
+        using RecvFn       = ssize_t (*)(int fd, void* buf, size_t len, int flags);
+
+        inline std::atomic<YieldFn> yieldFn { nullptr };
+        inline std::atomic<BeforeLockFn> beforeLockFn { nullptr };
+        inline std::atomic<SendFn> sendFn { nullptr };
+        inline std::atomic<SendfileFn> sendfileFn { nullptr };
+        inline std::atomic<RecvFn> recvFn { nullptr };
+
+        inline void yield(const char* tag)
+        {
+            auto f = yieldFn.load(std::memory_order_relaxed);
+            if (f)
+                f(tag);
+        }
+
+        inline void beforeLock(std::mutex& mtx, const char* tag)
+        {
+            auto f = beforeLockFn.load(std::memory_order_relaxed);
+            if (f)
+                f(mtx, tag);
+        }
+    } // namespace VerifHooks
+} // namespace Pistache
+
+#define PISTACHE_VERIF_YIELD(tag) ::Pistache::VerifHooks::yield(tag)
+#define PISTACHE_VERIF_BEFORE_LOCK(mtx, tag) ::Pistache::VerifHooks::beforeLock(mtx, tag)
